@@ -41,6 +41,17 @@ package ast
 //@ func runeRangesToAlt(neg bool, ranges ...[2]rune) (*Alt, []rune)
 //@   opaque
 
+// char_group --> "[" "^"? char_group_item+ "]": C14 - no set of characters in brackets makes the mapper panic
+// (the characters carried in an item's bag are the runes parsed from the pattern: any code point, not only ASCII)
+//@ func (m *mappers) ToCharGroup(r comb.Result) (comb.Result, bool)
+//@   requires m != nil
+//@   assumes @L-COMB typeis(r.Val, "comb.List") && len(unbox(r.Val, "comb.List")) == 4 && typeis(unbox(r.Val, "comb.List")[2].Val, "comb.List")
+//@   assumes @L-COMB forall k int, j int :: 0 <= k && k < len(unbox(unbox(r.Val, "comb.List")[2].Val, "comb.List"))
+//@     && typeis(unbox(unbox(r.Val, "comb.List")[2].Val, "comb.List")[k].Bag[bagKeyChars], "[]rune")
+//@     && 0 <= j && j < len(unbox(unbox(unbox(r.Val, "comb.List")[2].Val, "comb.List")[k].Bag[bagKeyChars], "[]rune"))
+//@     ==> unbox(unbox(unbox(r.Val, "comb.List")[2].Val, "comb.List")[k].Bag[bagKeyChars], "[]rune")[j] >= 0
+//@   ensures result1
+
 // Parse: any recorded semantic error and any syntax failure is returned; success never comes with a nil tree.
 //@ func Parse(regex string) (*AST, error)
 //@   modifies everything
